@@ -178,6 +178,9 @@ func execPmt(f []string) string {
 			Timestamp: time.Unix(int64(seed64), 0), Bits: 0x1d00ffff, Nonce: uint32(len(blk.Transactions))}
 	}
 	block := btcutil.NewBlock(&blk)
+	var before bytes.Buffer // inputs as they are before the first call sees them
+	_ = blk.Serialize(&before)
+	fbefore := append([]byte{}, filter.MsgFilterLoad().Filter...)
 	mb, idx := bloom.NewMerkleBlock(block, filter) // panics for a block without transactions
 	root := blockchain.CalcMerkleRoot(block.Transactions(), false)
 
@@ -237,9 +240,6 @@ func execPmt(f []string) string {
 	// sequential and four concurrent NewMerkleBlock calls; same message every time, block and filter untouched
 	inp := true
 	{
-		var before bytes.Buffer
-		_ = blk.Serialize(&before)
-		fbefore := append([]byte{}, filter.MsgFilterLoad().Filter...)
 		same := func(f *bloom.Filter) bool {
 			m2, idx2 := bloom.NewMerkleBlock(block, f)
 			if len(idx2) != len(idx) || m2.Transactions != mb.Transactions || !bytes.Equal(m2.Flags, mb.Flags) ||
